@@ -25,8 +25,10 @@ open Policy Gen.RP Engine
 
 /-- how the control loop calls the policy (regenerated from `_process_step_result_tick`) -/
 theorem C05_source_shape :
-    loopFailures = "this_execution.attempts + 1" ∧ loopNextArgs = "elapsed_time, failures, result.exception" :=
-  ⟨rfl, rfl⟩
+    loopFailures = "this_execution.attempts + 1" ∧ loopNextArgs = "elapsed_time, failures, result.exception" ∧
+    -- every time limit (a number of seconds or a timedelta) reaches the policy as its total number of seconds
+    toSecondsBody = "return float(value.total_seconds() if isinstance(value, timedelta) else value)" :=
+  ⟨rfl, rfl, rfl⟩
 
 /-- executions of an always-failing invocation: the `k`-th failure (`k = 1,2,…`) is followed
 by another execution iff the policy grants a retry -/
